@@ -224,7 +224,7 @@ def main(argv=None):
             c = C()
             if a.only and a.only not in c.name:
                 continue
-            for inst in c.instances(a.tier):
+            for inst in getattr(c, 'all_instances', c.instances)(a.tier):
                 jobs.append((mod.__name__, i, inst, 'contract', a.tier, seed))
         for i, f in enumerate(getattr(mod, 'EXTRAS', [])):
             if a.only and a.only not in f.__name__:
